@@ -242,6 +242,34 @@ func runList(hs *history) (fails []h.Failure) {
 					return
 				}
 				// the result is a new value: detach it from further mutations by not keeping it
+			case "merge-collections":
+				// the arguments are the collections of the history themselves (method
+				// arguments travel by reference), possibly the receiver: 合并 appends the
+				// arguments as they were when the call started
+				var argv []r.Element
+				concat := append([]zn.Value{}, model...)
+				for _, si := range o.Vs {
+					if si < 0 || si >= nSlots {
+						si = 0
+					}
+					argv = append(argv, arrs[si])
+					concat = append(concat, models[si]...)
+				}
+				got, err := arr.ExecMethod("合并", argv)
+				if err != nil {
+					fail("merge-rejected", err.Error())
+					return
+				}
+				if ok, why := zn.Same(got, &zn.ListV{Items: concat}); !ok {
+					fail("merge-result", fmt.Sprintf("合并 of collections %v: %s", o.Vs, why))
+					return
+				}
+				if ok, _ := zn.Same(arr, &zn.ListV{Items: concat}); ok {
+					model = concat
+				} else if ok, _ := zn.Same(arr, &zn.ListV{Items: model}); !ok {
+					fail("merge-receiver", "receiver after 合并 is neither the old list nor the concatenation")
+					return
+				}
 			case "first-set", "last-set":
 				if n == 0 {
 					continue // not specified for an empty list
@@ -389,6 +417,8 @@ func describe1(o op) string {
 		return fmt.Sprintf("swap %d %d", o.I, o.J)
 	case "merge":
 		return fmt.Sprintf("merge %v", o.Vs)
+	case "merge-collections":
+		return fmt.Sprintf("merge collections %v", o.Vs)
 	case "dget", "dread", "ddel":
 		return fmt.Sprintf("%s %q", o.Op, o.K)
 	case "dset", "dwrite":
@@ -408,7 +438,7 @@ func genListHistory(t *rapid.T) (*history, []string) {
 	mut := map[string]bool{}
 	multi := rapid.Bool().Draw(t, "multi") // several collections with copies between them
 	for i := 0; i < nops; i++ {
-		k := rapid.SampledFrom([]string{"get", "get", "set", "append", "append", "prepend", "shift", "pop", "swap", "merge", "first-set", "last-set", "reverse", "contains", "find", "find", "copy"}).Draw(t, "op")
+		k := rapid.SampledFrom([]string{"get", "get", "set", "append", "append", "prepend", "shift", "pop", "swap", "merge", "first-set", "last-set", "reverse", "contains", "find", "find", "copy", "merge-collections"}).Draw(t, "op")
 		o := op{Op: k}
 		if multi {
 			o.S = rapid.IntRange(0, nSlots-1).Draw(t, "slot")
@@ -429,6 +459,9 @@ func genListHistory(t *rapid.T) (*history, []string) {
 			o.J = rapid.IntRange(0, size+1).Draw(t, "j")
 		case "merge":
 			o.Vs = rapid.SliceOfN(rapid.IntRange(0, 8), 0, 3).Draw(t, "vs")
+		case "merge-collections":
+			o.Vs = rapid.SliceOfN(rapid.IntRange(0, nSlots-1), 1, 3).Draw(t, "slots")
+			mut["merge-collections"] = true
 		default:
 			o.V = rapid.IntRange(0, 8).Draw(t, "v")
 		}
